@@ -82,6 +82,26 @@ class Ctx:
         os.replace(exe + ".tmp", exe)
         return exe
 
+    def cxx_harness(self, bdir):
+        """C++ conformance harness: harness/cxx/cxx_drive.cpp + table generated from xraylib++.h and the C prototypes (one translation unit)"""
+        cflags = open(os.path.join(bdir, "cflags")).read().split()[1:]
+        hd = os.path.join(VERIF, "harness", "cxx")
+        h = hashlib.sha256()
+        for p in sorted(os.listdir(hd)): h.update(open(os.path.join(hd, p), "rb").read())
+        h.update(open(os.path.join(VERIF, "harness", "wraps.c"), "rb").read())
+        h.update(open(os.path.join(REPO, "cplusplus", "xraylib++.h"), "rb").read())
+        exe = os.path.join(bdir, "xrl_cxx-" + h.hexdigest()[:12])
+        if os.path.exists(exe): return exe
+        fd = os.path.join(bdir, "apifacts")
+        sh(["python3", os.path.join(VERIF, "facts", "lex.py"), REPO, REPO, fd, "protos"])
+        gd = os.path.join(bdir, "cxxgen"); os.makedirs(gd, exist_ok=True)
+        sh(["python3", os.path.join(hd, "gen_cxx.py"), os.path.join(REPO, "cplusplus", "xraylib++.h"), os.path.join(fd, "protos.json"), os.path.join(gd, "gen_cxx.cpp")])
+        sh(["g++", "-std=c++14"] + cflags + ["-I" + hd, "-I" + gd, "-I" + os.path.join(REPO, "cplusplus"), "-Wno-deprecated-declarations", "-c", os.path.join(hd, "cxx_drive.cpp"), "-o", os.path.join(gd, "cxx_drive.o")])
+        sh(["gcc"] + cflags + ["-w", "-c", os.path.join(VERIF, "harness", "wraps.c"), "-o", os.path.join(gd, "wraps.o")])
+        sh(["g++"] + [f for f in cflags if f.startswith("-fsanitize")] + [os.path.join(gd, "cxx_drive.o"), os.path.join(gd, "wraps.o"), os.path.join(bdir, "libxrl.a"), "-lm", "-Wl," + ",".join("--wrap=" + w for w in self.WRAPS), "-o", exe + ".tmp"])
+        os.replace(exe + ".tmp", exe)
+        return exe
+
     def dataroot(self, bdir):
         return open(os.path.join(bdir, "dataroot")).read().strip()
 
